@@ -33,6 +33,10 @@ type Shard struct {
 	metaBaseIface metabase
 
 	metaBaseOpenErr error
+
+	// set if the last mode switch failed midway, i.e. components may be in
+	// different modes; protected by cfg.m
+	modeSwitchFailed bool
 }
 
 // Option represents Shard's constructor option.
